@@ -1,30 +1,53 @@
+// vcheck runs one property check: vcheck <ID> --tier quick|thorough [--replay file] | --worker
 package main
 
 import (
+	"encoding/json"
+	"flag"
 	"fmt"
-	"net/http"
-	"net/http/httptest"
 	"os"
 
-	"github.com/olareg/olareg"
-	"github.com/olareg/olareg/config"
-	"github.com/olareg/olareg/internal/verif/vrt"
+	_ "github.com/olareg/olareg/internal/verif/checks"
+	"github.com/olareg/olareg/internal/verif/h"
 )
 
 func main() {
-	vrt.Reset(vrt.Config{})
-	dir, _ := os.MkdirTemp("/dev/shm", "vprobe")
-	defer os.RemoveAll(dir)
-	s := olareg.New(config.Config{Storage: config.ConfigStorage{StoreType: config.StoreDir, RootDir: dir}})
-	req := httptest.NewRequest("POST", "/v2/a/blobs/uploads/?digest=sha256:e3b0c44298fc1c149afbf4c8996fb92427ae41e4649b934ca495991b7852b855", http.NoBody)
-	rec := httptest.NewRecorder()
-	s.ServeHTTP(rec, req)
-	vrt.Quiesce()
-	fmt.Println(rec.Code, rec.Header())
-	fmt.Println("blocked:", vrt.Blocked(), "timers:", vrt.PendingTimers())
-	vrt.Advance(16*60*1e9, false)
-	fmt.Println("after tick; timers:", vrt.PendingTimers())
-	_ = s.Close()
-	vrt.Finish()
-	fmt.Println("steps", vrt.Steps())
+	if len(os.Args) > 1 && os.Args[1] == "--worker" {
+		h.WorkerMain()
+		return
+	}
+	if len(os.Args) < 2 {
+		fmt.Fprintln(os.Stderr, "usage: vcheck <ID> [--tier quick|thorough] [--replay file]")
+		os.Exit(2)
+	}
+	id := os.Args[1]
+	fs := flag.NewFlagSet("vcheck", flag.ExitOnError)
+	tier := fs.String("tier", "quick", "quick or thorough")
+	replay := fs.String("replay", "", "replay artefact")
+	_ = fs.Parse(os.Args[2:])
+	if t := os.Getenv("VERIF_TIER"); t != "" && *tier == "" {
+		*tier = t
+	}
+	if *replay != "" {
+		b, err := os.ReadFile(*replay)
+		if err != nil {
+			fmt.Fprintln(os.Stderr, err)
+			os.Exit(2)
+		}
+		var art struct {
+			Tier      string      `json:"tier"`
+			Violation h.Violation `json:"violation"`
+		}
+		if err := json.Unmarshal(b, &art); err != nil {
+			fmt.Fprintln(os.Stderr, err)
+			os.Exit(2)
+		}
+		os.Exit(h.Replay(id, art.Tier, art.Violation))
+	}
+	run, ok := h.Checks[id]
+	if !ok {
+		fmt.Fprintf(os.Stderr, "no check registered for %s\n", id)
+		os.Exit(2)
+	}
+	os.Exit(run(*tier))
 }
